@@ -323,3 +323,7 @@ def run(ctx):
     def t2(event, text, gender, prec):
         do_case(ctx, {'event': event, 'text': text, 'gender': gender, 'prec': prec})
     t2()
+    if thorough:
+        from vlib import fuzzrun
+        fuzzrun.run_atheris(ctx, 'fuzz/c12_checkperf.py', seconds=120,
+                            seeds=[b'\x05' + b'2:33', b'\x00' + b'9.73', b'\x20' + b'0:14:53.2'])
